@@ -234,6 +234,11 @@ def worker_main(argv):
     out["wall_s"] = time.monotonic() - t0
     with open(outfile, "w") as f:
         json.dump(out, f, default=_json_default)
+    # the threaded code under test creates non-daemon threads; one that is still blocked (e.g. in a
+    # write to a device that went away) must not keep the finished shard from exiting
+    sys.stdout.flush()
+    sys.stderr.flush()
+    os._exit(0)
 
 
 def _json_default(o):
